@@ -62,6 +62,8 @@ type FaultRule struct {
 	Kind string
 	// Remaining is how often the rule fires (-1: always).
 	Remaining int
+	// Skip is the number of matching requests that pass untouched before the rule starts firing.
+	Skip int `json:",omitempty"`
 }
 
 // Proxy is a frame-level ssh-agent served on a unix socket in front of a real keyring.
@@ -254,6 +256,10 @@ func (p *Proxy) matchRule(idx, code int) string {
 			continue
 		}
 		if r.Code >= 0 && r.Code != code {
+			continue
+		}
+		if r.Skip > 0 {
+			r.Skip--
 			continue
 		}
 		if r.Remaining > 0 {
